@@ -319,8 +319,11 @@ class World:
         # the trailing separator is kept: trailing whitespace is legal
 
     def install(self, simfs):
+        # line_end: how the files are stored ("\r\n", "\r"); every offset of the generator refers to the text a reader
+        # in text mode sees (universal newlines: "\n")
+        le = getattr(self, "line_end", None)
         for p, fe in self.files.items():
-            simfs.files[p] = fe.text
+            simfs.files[p] = fe.text.replace("\n", le) if le else fe.text
 
     def describe(self):
         d = {"main": self.main, "files": {p: fe.text for p, fe in self.files.items()}}
